@@ -339,7 +339,19 @@ func genField(r *Rng, kind string, inLimit bool) FV {
 			return byt(genBytes(r, 65535))
 		}
 		return byt(genBytes(r, 0))
-	case "str4", "msg":
+	case "str4":
+		if r.Chance(1) {
+			// a field behind a 32-bit length may be longer than a default-sized frame (max-msg-len 102400 is a
+			// setting of the transport, not of this layout): lock keys and application data grow that long
+			n := []int{102400, 102401, 150000, 262144}[r.Intn(4)]
+			b := make([]byte, n)
+			for i := range b {
+				b[i] = byte('a' + (i*7+n)%26)
+			}
+			return byt(b)
+		}
+		return byt(genBytes(r, 0))
+	case "msg":
 		return byt(genBytes(r, 0))
 	case "bool":
 		return boo(r.Bool())
